@@ -6,6 +6,8 @@
 -/
 import EV.Proofs.CodecTx
 import EV.Proofs.CodecBlock
+import EV.Proofs.Genesis
+import EV.Proofs.GenesisKernel
 namespace EV.Props.C02
 open EV EV.Codec EV.Proofs.CodecPrim EV.Proofs.CodecTx EV.Proofs.CodecBlock
 
@@ -89,5 +91,281 @@ theorem clear_witness_exact (h : BlockHeader) :
 /-- non-vacuity: a canonical transaction with a witness exists, and stripping changes it -/
 example : let t : Tx := ⟨2, 0, [⟨⟨List.replicate 32 1, 0⟩, false, [], 0, AssetIssuance.null, ⟨none, none, [[1]], []⟩⟩], []⟩
     t.hasWitness = true ∧ stripWit t ≠ t := by decide
+
+/-! ## Genesis blocks and chain hashes (src/genesis.rs — model: EV.Model.Genesis)
+
+  `genesis_block(params)` composes what the sections above are about: two transactions whose `txid`s
+  are merkle-ized into a header whose `block_hash` is the chain hash.  `G : GHashes` carries the three
+  hash functions as parameters (double SHA-256, the midstate combiner, single SHA-256 of the parameter
+  commitment); `Option` results are `none` where the Rust code would panic.
+  Hypotheses: `Len32 G` (the hashes return 32 bytes), `ParamsOk p` (`initial_free_coins` is a `u64`, the
+  sign-block script is within `MAX_VEC_SIZE`), `SizesFit P` / `SizesPos P` (platform `size_of` facts),
+  `P.tweak 0^32` (secp256k1-zkp: "the value 0 is also a valid tweak"). -/
+section Genesis
+open EV.Genesis EV.Proofs.Genesis
+
+variable (G : GHashes) (p : NetworkParams)
+
+/-! ### (a) structure -/
+
+/-- `genesis_block` never panics -/
+theorem genesis_block_total (hl : Len32 G) : ∃ b, genesisBlock G p = some b :=
+  genesisBlock_total G p (hl.sha256 _)
+
+/-- the second transaction of the block is exactly what `liquid_genesis_asset_tx` returns (`None` ⇒ absent) … -/
+theorem genesis_block_asset_tx (b : Block) (hb : genesisBlock G p = some b) :
+    genesisAssetTx G p = some b.txdata[1]? ∧ b.txdata.length ≤ 2 := by
+  unfold genesisBlock at hb
+  split at hb
+  · cases hb
+  · split at hb
+    · cases hb
+    · rename_i heq
+      split at hb
+      · cases hb
+      · cases hb; exact ⟨heq, by simp⟩
+    · rename_i heq
+      cases hb; exact ⟨heq, by simp⟩
+
+/-- … which is `None` exactly when there are no free coins: 1 or 2 transactions accordingly -/
+theorem genesis_tx_count (b : Block) (hb : genesisBlock G p = some b) :
+    b.txdata.length = if p.initialFreeCoins = 0 then 1 else 2 := by
+  unfold genesisBlock at hb
+  split at hb
+  · cases hb
+  · split at hb
+    · cases hb
+    · rename_i heq
+      have h0 : p.initialFreeCoins ≠ 0 := by
+        intro h0; rw [genesisAssetTx_zero G p h0] at heq; cases heq
+      split at hb
+      · cases hb
+      · cases hb; simp [h0]
+    · rename_i heq
+      have h0 : p.initialFreeCoins = 0 := by
+        apply Classical.byContradiction; intro h0; rw [genesisAssetTx_nonzero G p h0] at heq; cases heq
+      cases hb; simp [h0]
+
+/-- the header's merkle root is the bitcoin merkle root of the txids of the block's transactions -/
+theorem genesis_merkle_root (b : Block) (hb : genesisBlock G p = some b) :
+    btcMerkleRoot G.sha256d (b.txdata.map (Tx.txid G.toHashes)) = some b.header.merkleRoot := by
+  unfold genesisBlock at hb
+  split at hb
+  · cases hb
+  · split at hb
+    · cases hb
+    · split at hb
+      · cases hb
+      · rename_i hroot
+        cases hb; exact hroot
+    · cases hb; rfl
+
+/-- `bitcoin::merkle_tree::calculate_root`: one hash is its own root, two hashes give the double SHA-256
+    of their concatenation, two or more reduce to the root of the pair level (the last hash of an odd
+    level is paired with itself), and the computation never fails on a non-empty list -/
+theorem btc_merkle_single (h : Bytes → Bytes) (a : Bytes) : btcMerkleRoot h [a] = some a := rfl
+theorem btc_merkle_pair (h : Bytes → Bytes) (a b : Bytes) : btcMerkleRoot h [a, b] = some (h (a ++ b)) := rfl
+theorem btc_merkle_level (h : Bytes → Bytes) (a b : Bytes) (rest : List Bytes) :
+    btcMerkleRoot h (a :: b :: rest) = btcMerkleRoot h (btcPairs h (a :: b :: rest)) := btcMerkleRoot_level h a b rest
+theorem btc_merkle_total (h : Bytes → Bytes) (l : List Bytes) (hne : l ≠ []) : ∃ r, btcMerkleRoot h l = some r :=
+  btcMerkleRoot_total h l hne
+theorem btc_merkle_empty (h : Bytes → Bytes) : btcMerkleRoot h [] = none := rfl
+
+/-- so with one transaction the root is its txid and with two it is `sha256d(txid₀ ‖ txid₁)` -/
+theorem genesis_merkle_root_cases (b : Block) (hb : genesisBlock G p = some b) :
+    (∃ t, b.txdata = [t] ∧ b.header.merkleRoot = t.txid G.toHashes) ∨
+    (∃ t a, b.txdata = [t, a] ∧ b.header.merkleRoot = G.sha256d (t.txid G.toHashes ++ a.txid G.toHashes)) := by
+  have hr := genesis_merkle_root G p b hb
+  have hc := genesis_tx_count G p b hb
+  match htx : b.txdata, hc with
+  | [t], _ => rw [htx] at hr; exact Or.inl ⟨t, rfl, (Option.some.inj hr).symm⟩
+  | [t, a], _ => rw [htx] at hr; exact Or.inr ⟨t, a, rfl, (Option.some.inj hr).symm⟩
+  | [], hc => split at hc <;> simp at hc
+  | _ :: _ :: _ :: _, hc => split at hc <;> simp at hc
+
+/-- the rest of the header: no previous block, height 0, the extracted time and version, the sign-block
+    script as challenge and an empty solution — so the chain hash is `block_hash_def` of this header -/
+theorem genesis_header (b : Block) (hb : genesisBlock G p = some b) :
+    b.header = genesisHeader p b.header.merkleRoot ∧
+    b.header.prevBlockhash = List.replicate 32 0 ∧ b.header.height = 0 ∧
+    b.header.time = EV.Gen.genesisHeaderTime ∧ b.header.ext = .proof p.signBlockScript [] := by
+  unfold genesisBlock at hb
+  split at hb
+  · cases hb
+  · split at hb
+    · cases hb
+    · split at hb
+      · cases hb
+      · cases hb; exact ⟨rfl, prev_zero, height_zero, rfl, rfl⟩
+    · cases hb; exact ⟨rfl, prev_zero, height_zero, rfl, rfl⟩
+
+theorem chain_hash_def (b : Block) (hb : genesisBlock G p = some b) :
+    chainHash G p = some (G.sha256d b.header.hashPreimage) := by
+  simp only [chainHash, hb, Option.map_some, BlockHeader.blockHash]
+
+/-- the first transaction is coinbase-like: one input with the null outpoint, no pegin, no issuance, no
+    witness, whose scriptSig is the 32-byte push (opcode 0x20) of the parameter commitment; one
+    unspendable (`OP_RETURN`) output of value 0 -/
+theorem genesis_coinbase (hl : Len32 G) (b : Block) (hb : genesisBlock G p = some b) :
+    ∃ t rest i o, b.txdata = t :: rest ∧ genesisTx G p = some t ∧ t.input = [i] ∧ t.output = [o] ∧
+      i.previousOutput = OutPoint.null ∧ i.scriptSig = 0x20 :: commit G.sha256 p ∧
+      i.isPegin = false ∧ i.hasIssuance = false ∧ t.hasWitness = false ∧
+      o.scriptPubkey = [EV.Gen.opReturn] ∧ o.value = .explicit 0 := by
+  have hc : (commit G.sha256 p).length = 32 := hl.sha256 _
+  by_cases h0 : p.initialFreeCoins = 0
+  · rw [genesisBlock_zero G p hc h0] at hb; cases hb
+    exact ⟨_, _, _, _, rfl, genesisTx_eq G p hc, rfl, rfl, rfl, rfl, rfl, rfl, rfl, by decide, by decide⟩
+  · rw [genesisBlock_nonzero G p hc h0] at hb; cases hb
+    exact ⟨_, _, _, _, rfl, genesisTx_eq G p hc, rfl, rfl, rfl, rfl, rfl, rfl, rfl, by decide, by decide⟩
+
+/-- bridge to the script model (C16): that scriptSig, read by `Script::instructions()` /
+    `instructions_minimal()`, is exactly one data push of the commitment -/
+theorem genesis_script_sig_parses (hl : Len32 G) :
+    EV.Script.instructions (0x20 :: commit G.sha256 p) = ([.push (commit G.sha256 p)], none) ∧
+    EV.Script.instructionsMinimal (0x20 :: commit G.sha256 p) = ([.push (commit G.sha256 p)], none) :=
+  ⟨push32_parses _ (hl.sha256 _) false, push32_parses _ (hl.sha256 _) true⟩
+
+/-! ### (b) the asset transaction is a self-consistent issuance -/
+
+/-- the asset of its single output is the asset id that the C11 model (`TxIn::issuance_ids`, equally
+    `AssetId::new_issuance` with the zero contract hash) derives for its own single input; the issued
+    amount equals the output amount, which is `initial_free_coins`; the input spends output 0 of the
+    parameter commitment read as a txid -/
+theorem genesis_asset_tx_self_consistent (t : Tx) (ht : genesisAssetTx G p = some (some t)) :
+    ∃ i o id, t.input = [i] ∧ t.output = [o] ∧
+      (i.issuanceIds G.toHashes).map Prod.fst = some id ∧ o.asset = .explicit id ∧
+      Issuance.newIssuance G.toHashes i.previousOutput (List.replicate 32 0) = some id ∧
+      i.assetIssuance.amount = o.value ∧ o.value = .explicit p.initialFreeCoins ∧
+      i.previousOutput = ⟨commit G.sha256 p, 0⟩ ∧ i.hasIssuance = true ∧ i.isPegin = false ∧
+      t.hasWitness = false := by
+  have h0 : p.initialFreeCoins ≠ 0 := by
+    intro h0; rw [genesisAssetTx_zero G p h0] at ht; cases ht
+  rw [genesisAssetTx_nonzero G p h0] at ht
+  cases ht
+  obtain ⟨i, o, h1, h2, h3, h4, h5, h6, h7, h8, h9, h10⟩ :=
+    assetTx_ids G.toHashes (commit G.sha256 p) p.initialFreeCoins
+  exact ⟨i, o, _, h1, h2, h3, h4, h5, h6, h7, by rw [h8]; rfl, h9, h10, rfl⟩
+
+/-! ### (c) well-formedness: the C01 round trip applies -/
+
+/-- the genesis block and its transactions are canonical values of the C01 codec model … -/
+theorem genesis_block_wf (hl : Len32 G) (hp : ParamsOk p) (ht : P.tweak (List.replicate 32 0) = true)
+    (hf : SizesFit P) (b : Block) (hb : genesisBlock G p = some b) : b.wf P :=
+  genesisBlock_wf G p P hl hp ht hf b hb
+
+/-- … hence (C01 `block_laws`, `tx_laws`) the consensus encoding of the block decodes back to it, stopping
+    exactly at its end, and so does every transaction in it -/
+theorem genesis_block_roundtrip (hl : Len32 G) (hp : ParamsOk p) (ht : P.tweak (List.replicate 32 0) = true)
+    (hs : SizesPos P) (hf : SizesFit P) (b : Block) (hb : genesisBlock G p = some b) (r : Bytes) :
+    Block.dec P (b.enc ++ r) = .ok (b, r) :=
+  (block_lawful P hs).complete b r (genesisBlock_wf G p P hl hp ht hf b hb)
+
+theorem genesis_tx_roundtrip (hl : Len32 G) (hp : ParamsOk p) (ht : P.tweak (List.replicate 32 0) = true)
+    (hs : SizesPos P) (hf : SizesFit P) (b : Block) (hb : genesisBlock G p = some b) :
+    ∀ t ∈ b.txdata, Tx.deserialize P t.enc = .ok t := by
+  intro t htm
+  have hw := (genesisBlock_wf G p P hl hp ht hf b hb).2.2 t htm
+  have := (tx_lawful P hs).complete t [] hw
+  simp only [List.append_nil] at this
+  simp [Tx.deserialize, this]
+
+/-- the hypotheses are satisfiable (constant 32-byte hashes, both built-in networks, a trivial `Prims`) -/
+example : Len32 constHashes ∧ ParamsOk NetworkParams.liquidv1 ∧ ParamsOk NetworkParams.liquidtestnet ∧
+    P0.tweak (List.replicate 32 0) = true ∧ SizesPos P0 ∧ SizesFit P0 :=
+  ⟨constHashes_len32, liquidv1_ok, liquidtestnet_ok, rfl, P0_pos, P0_fit⟩
+
+/-- … and so are the premises `genesisBlock G p = some b` (both shapes) and `genesisAssetTx G p = some (some t)` -/
+example : ∃ b, genesisBlock constHashes NetworkParams.liquidv1 = some b ∧ b.txdata.length = 1 := by
+  obtain ⟨b, hb⟩ := genesis_block_total constHashes NetworkParams.liquidv1 constHashes_len32
+  exact ⟨b, hb, by rw [genesis_tx_count _ _ b hb]; decide⟩
+example : ∃ b, genesisBlock constHashes NetworkParams.liquidtestnet = some b ∧ b.txdata.length = 2 := by
+  obtain ⟨b, hb⟩ := genesis_block_total constHashes NetworkParams.liquidtestnet constHashes_len32
+  exact ⟨b, hb, by rw [genesis_tx_count _ _ b hb]; decide⟩
+example : ∃ t, genesisAssetTx constHashes NetworkParams.liquidtestnet = some (some t) :=
+  ⟨_, genesisAssetTx_nonzero _ _ (by decide)⟩
+
+/-! ### (d) what the commitment and the chain hash depend on -/
+
+/-- the commitment is the SHA-256 of: network id ‖ lower-case hex of the fedpeg script ‖ lower-case hex
+    of the sign-block script — nothing else (not the free coins), no separators -/
+theorem commit_def (S : Bytes → Bytes) :
+    commit S p = S (p.networkId ++ hexAscii p.fedpegScript ++ hexAscii p.signBlockScript) := rfl
+
+/-- where the hex feed is the lower-case hex string of EV.Model.Text (C20), char by char as ASCII -/
+theorem hex_feed_is_lower_hex (bs : Bytes) :
+    hexAscii bs = (EV.Text.hexStr bs).map (fun c => UInt8.ofNat c.toNat) := hexAscii_eq_hexStr bs
+
+theorem commit_depends_only (S : Bytes → Bytes) (q : NetworkParams) (hid : p.networkId = q.networkId)
+    (hf : hexAscii p.fedpegScript = hexAscii q.fedpegScript)
+    (hs : hexAscii p.signBlockScript = hexAscii q.signBlockScript) : commit S p = commit S q := by
+  simp only [commit, commitPreimage, hid, hf, hs]
+
+/-- equal commitments: equal hashed strings, or a SHA-256 collision … -/
+theorem commit_commits (S : Bytes → Bytes) (q : NetworkParams) (h : commit S p = commit S q) :
+    commitPreimage p = commitPreimage q ∨ Collision S := by
+  by_cases he : commitPreimage p = commitPreimage q
+  · exact Or.inl he
+  · exact Or.inr ⟨_, _, he, h⟩
+
+/-- … and the hashed string determines both scripts once the network id and the length of the fedpeg
+    script are fixed (the hex feed is injective) … -/
+theorem commit_preimage_injective (q : NetworkParams) (hid : p.networkId = q.networkId)
+    (hlen : p.fedpegScript.length = q.fedpegScript.length) (h : commitPreimage p = commitPreimage q) :
+    p.fedpegScript = q.fedpegScript ∧ p.signBlockScript = q.signBlockScript :=
+  commitPreimage_inj p q hid hlen h
+
+/-- … but not in general: without separators, hex digits can move between the network id and the
+    fedpeg script (as in Elements Core, whose commitment this reproduces) -/
+theorem commit_split_ambiguity : ∃ a b : NetworkParams, a ≠ b ∧ ∀ S, commit S a = commit S b :=
+  ⟨⟨[0x61, 0x62], [], [], 0⟩, ⟨[], [0xab], [], 0⟩, by decide, fun _ => rfl⟩
+
+/-- the genesis block, hence the chain hash, is a function of the commitment, the sign-block script and
+    the free coins: parameter sets that agree on those three give the same block -/
+theorem chain_hash_depends_only (q : NetworkParams) (hc : commit G.sha256 p = commit G.sha256 q)
+    (hs : p.signBlockScript = q.signBlockScript) (hn : p.initialFreeCoins = q.initialFreeCoins) :
+    genesisBlock G p = genesisBlock G q ∧ chainHash G p = chainHash G q := by
+  have h1 : genesisTx G p = genesisTx G q := by simp only [genesisTx, hc]
+  have h2 : genesisAssetTx G p = genesisAssetTx G q := by simp only [genesisAssetTx, hc, hn]
+  have h3 : ∀ r, genesisHeader p r = genesisHeader q r := fun r => by simp only [genesisHeader, hs]
+  have h4 : genesisBlock G p = genesisBlock G q := by simp only [genesisBlock, h1, h2, h3]
+  exact ⟨h4, by simp only [chainHash, h4]⟩
+
+/-- non-vacuity: two different parameter sets that agree on (commitment, sign-block script, coins) exist -/
+example : ∃ a b : NetworkParams, a ≠ b ∧ chainHash constHashes a = chainHash constHashes b :=
+  ⟨⟨[0x61, 0x62], [], [], 0⟩, ⟨[], [0xab], [], 0⟩, by decide, (chain_hash_depends_only _ _ _ rfl rfl rfl).2⟩
+
+/-- conversely the genesis txid commits to the commitment: parameter sets with different commitments
+    have different genesis txids, or a double-SHA-256 collision is exhibited -/
+theorem genesis_txid_commits (hl : Len32 G) (q : NetworkParams) (tp tq : Tx)
+    (hp : genesisTx G p = some tp) (hq : genesisTx G q = some tq) (h : tp.txid G.toHashes = tq.txid G.toHashes) :
+    commit G.sha256 p = commit G.sha256 q ∨ Collision G.sha256d := by
+  rw [genesisTx_eq G p (hl.sha256 _)] at hp
+  rw [genesisTx_eq G q (hl.sha256 _)] at hq
+  cases hp; cases hq
+  exact coinbase_txid_commits P0 G.toHashes P0_pos P0_fit _ _ (hl.sha256 _) (hl.sha256 _) h
+
+/-- and so does the chain hash, together with the sign-block script and the free coins: equal chain
+    hashes imply equal (commitment, sign-block script, free coins), or a double-SHA-256 collision -/
+theorem chain_hash_commits (hl : Len32 G) (q : NetworkParams) (hp : ParamsOk p) (hq : ParamsOk q)
+    (h : chainHash G p = chainHash G q) :
+    (commit G.sha256 p = commit G.sha256 q ∧ p.signBlockScript = q.signBlockScript ∧
+      p.initialFreeCoins = q.initialFreeCoins) ∨ Collision G.sha256d :=
+  chainHash_commits G hl p q hp hq h
+
+/-! ### (e) the pinned chain hashes, checked by the kernel -/
+
+/-- running the model on the parameter sets extracted from `NetworkParams::liquidv1()` /
+    `liquidtestnet()` with the kernel-evaluable SHA-256 (EV.Model.Sha256K, compared with bitcoin_hashes by
+    the K op `shak`) gives exactly the extracted `ChainHash::LIQUIDV1` / `ChainHash::LIQUIDTESTNET`
+    (`decide +kernel`, in EV.Proofs.GenesisKernel) -/
+theorem chain_hash_liquidv1 :
+    chainHash EV.Proofs.GenesisKernel.kernelHashes NetworkParams.liquidv1 = some chainHashLiquidv1 :=
+  EV.Proofs.GenesisKernel.chainHash_liquidv1
+
+theorem chain_hash_liquidtestnet :
+    chainHash EV.Proofs.GenesisKernel.kernelHashes NetworkParams.liquidtestnet = some chainHashLiquidtestnet :=
+  EV.Proofs.GenesisKernel.chainHash_liquidtestnet
+
+end Genesis
 
 end EV.Props.C02
